@@ -318,7 +318,12 @@ func (d *dynUpdater) checkBackendPair(pair *backendPair) bool {
 
 	// copy remaining empty slots from oldBack to curBack, so it can be used in a future update
 	for i := len(added); i < len(empty); i++ {
-		renameEndpoint(curBack.AddEmptyEndpoint(), empty[i].Name)
+		// the slot keeps the cookie value its running server has, which cannot
+		// be changed without a reload: a slot that was used by a preserved
+		// cookie value is not the same as a never used one
+		ep := curBack.AddEmptyEndpoint()
+		ep.Name = empty[i].Name
+		ep.CookieValue = empty[i].CookieValue
 	}
 
 	return updated
